@@ -1107,13 +1107,19 @@ func (pool *TxPool) demoteUnexecutables() {
 			log.Trace("Demoting pending transaction", "hash", hash)
 			pool.enqueueTx(hash, tx)
 		}
-		// If there's a gap in front, warn (should never happen) and postpone all transactions
-		if list.Len() > 0 && list.txs.Get(nonce) == nil {
-			for _, tx := range list.Cap(0) {
-				hash := tx.Hash()
-				log.Error("Demoting invalidated transaction", "hash", hash)
-				pool.enqueueTx(hash, tx)
+		// If there's a gap (in front, or further up after a reorg re-injected only
+		// part of the dropped transactions), postpone everything behind it
+		expected := nonce
+		for i, tx := range list.Flatten() {
+			if tx.Nonce() != expected {
+				for _, tx := range list.Cap(i) {
+					hash := tx.Hash()
+					log.Debug("Demoting invalidated transaction", "hash", hash)
+					pool.enqueueTx(hash, tx)
+				}
+				break
 			}
+			expected++
 		}
 		// Delete the entire queue entry if it became empty.
 		if list.Empty() {
